@@ -44,7 +44,8 @@ def canon_events(evs):
 class Run:
     """one observer on one scratch universe"""
 
-    def __init__(self, recursive=True, full=False, as_bytes=False, root_spelling=None, small_reads=False, vanish_at=None):
+    def __init__(self, recursive=True, full=False, as_bytes=False, root_spelling=None, small_reads=False, vanish_at=None,
+                 rm_fault_at=None):
         from watchdog.observers import inotify_c
         from watchdog.observers.inotify import InotifyObserver
 
@@ -71,6 +72,26 @@ class Run:
                         self.vanished.append(self.uni.rel(pth))
                 return _real(fd, path, mask)
             inotify_c.inotify_add_watch = add_watch
+
+        # (c) a transient fault: the k-th inotify_rm_watch finds its watch already dropped by the kernel (the directory
+        #     was removed by someone else at that instant): the removal happens, the call reports EINVAL
+        self._real_rm_watch = inotify_c.inotify_rm_watch
+        self.rm_calls = 0
+        self.rm_faults = 0
+        if rm_fault_at is not None:
+            import ctypes
+            import errno as _errno
+
+            def rm_watch(fd, wd, _real=self._real_rm_watch):
+                r_ = _real(fd, wd)
+                if self.started:
+                    self.rm_calls += 1
+                    if self.rm_calls == rm_fault_at and r_ == 0:
+                        self.rm_faults += 1
+                        ctypes.set_errno(_errno.EINVAL)
+                        return -1
+                return r_
+            inotify_c.inotify_rm_watch = rm_watch
 
         self.uni = fsops.Universe(as_bytes=as_bytes)
         self.recursive, self.full = recursive, full
@@ -176,6 +197,7 @@ class Run:
             threading.excepthook = self._old_hook
             self._kwd["event_buffer_size"] = self._old_size
             self._ic.inotify_add_watch = self._real_add_watch
+            self._ic.inotify_rm_watch = self._real_rm_watch
             self.uni.cleanup()
 
 
@@ -475,9 +497,9 @@ def gen_bursts(r, n):
     return init, bursts
 
 
-def run_bursts(init_ops, bursts, recursive=True, full=False, small_reads=False, vanish_at=None):
+def run_bursts(init_ops, bursts, recursive=True, full=False, small_reads=False, vanish_at=None, rm_fault_at=None):
     """every burst is issued while the reader is held off; returns the delivered events per burst, the trees and probes"""
-    r = Run(recursive, full, False, small_reads=small_reads, vanish_at=vanish_at)
+    r = Run(recursive, full, False, small_reads=small_reads, vanish_at=vanish_at, rm_fault_at=rm_fault_at)
     try:
         for op in init_ops:
             r.uni.apply(op)
@@ -503,7 +525,7 @@ def run_bursts(init_ops, bursts, recursive=True, full=False, small_reads=False, 
                 probe_results.append((d, d.count("/"), seen))
                 r.step(("unlink", pr))
         return {"per_op": per, "applied": applied_all, "tree": tree, "initial_tree": initial_tree, "timeout": timeout,
-                "thread_errors": list(r.thread_errors), "probes": probe_results, "vanished": list(r.vanished),
+                "thread_errors": list(r.thread_errors), "probes": probe_results, "vanished": list(r.vanished), "rm_faults": r.rm_faults,
                 "root_gone": not r.root_exists(), "initial_outside": initial_outside}
     finally:
         r.stop()
